@@ -311,6 +311,9 @@ PROPS["C18"] = {
              "under the table AFTER, never a mixture; a metric dispatched after the operation returned sees the new table only; Table.Snapshot() "
              "equals the model. admin_history: rapid state machine of admin operations (known/unknown keys, indexes valid / = len / > len, bad "
              "options) vs a model of the four lists, Snapshot() compared after every step, out-of-range rejected with an error and no change. "
+             "concurrent_admins: four admin goroutines change the table at the same time, each the only writer of its own list (routes by key; blacklist, "
+             "rewriters, aggregations by index; aggregations hold pending points so that deleting one has something to flush), 5-40 changes each: every "
+             "change must be accepted and the final Snapshot() must equal every list's own sequence of changes (nothing acknowledged is undone by another connection). "
              "concurrent_churn: 2-6 dispatcher goroutines send unique metrics while an admin goroutine adds/deletes volatile routes, blacklist "
              "entries, rewriters and destinations around permanent catch-all capture routes and a permanent destination: each permanent entity "
              "must get every metric exactly once (also run under -race). Non-trivial (parked): the dispatcher reached the park point and the "
@@ -319,9 +322,9 @@ PROPS["C18"] = {
     "level_note": "Park points are the places where a dispatcher can hold a previous snapshot (after the table load, inside each capture route, after each carbon route's load); a hand-off to an entity deleted by the operation is observed by draining its input. Liveness of a dispatcher against a deleted route is not asserted (not part of the statement).",
     "technique": "property-based testing (rapid): schedule-owning parked-dispatcher cases vs reference model; model-based admin histories; -race stress",
     "assumptions": ["the verif-tagged after-load callbacks mark every point where a configuration snapshot is taken by a dispatcher"],
-    "quick": [R("TestPropParkedDispatch", 2500), R("TestPropAdminHistory", 600, steps=40), R("TestPropConcurrentChurn", 40),
+    "quick": [R("TestPropParkedDispatch", 2500), R("TestPropAdminHistory", 600, steps=40), R("TestPropConcurrentAdmins", 2000), R("TestPropConcurrentChurn", 40),
               R("TestPropConcurrentChurn", 15, race=True)],
-    "thorough": [R("TestPropParkedDispatch", 20000, shards=8, timeout=2400), R("TestPropAdminHistory", 8000, shards=3, steps=60, timeout=2400),
+    "thorough": [R("TestPropParkedDispatch", 20000, shards=8, timeout=2400), R("TestPropAdminHistory", 8000, shards=2, steps=60, timeout=2400), R("TestPropConcurrentAdmins", 40000, shards=2, timeout=2400),
                  R("TestPropConcurrentChurn", 400, shards=3, timeout=2400), R("TestPropConcurrentChurn", 150, shards=2, race=True, timeout=2400)],
 }
 
